@@ -54,20 +54,23 @@ class PropagateAnchorsIFilter(BaseIFilter):
     def set_context(self, *args, **kwargs):
         ctx = super().set_context(*args, **kwargs)
         ctx.processed = [set() for _ in range(len(ctx.glyphSets))]
+        # composites that got anchors while another glyph, which uses them, was
+        # being processed
+        ctx.nested = set()
         ctx.categories = OpenTypeCategories.load(self.getDefaultFont())
         return ctx
 
     def __call__(self, fonts, glyphSets=None, instantiator=None, **kwargs):
         modified = super().__call__(fonts, glyphSets, instantiator, **kwargs)
+        modified |= self.context.nested
         if modified:
             logger.info("Glyphs with propagated anchors: %i" % len(modified))
         return modified
 
     def filter(self, glyphName, glyphs):
-        modified = False
         if not any(glyph.components for glyph in glyphs):
-            return modified
-        before = len(self.context.modified)
+            return False
+        modified = set()
         for i, (glyphSet, interpolatedLayer) in enumerate(
             zip_strict(self.context.glyphSets, self.getInterpolatedLayers())
         ):
@@ -77,10 +80,13 @@ class PropagateAnchorsIFilter(BaseIFilter):
                     interpolatedLayer or glyphSet,
                     glyph,
                     self.context.processed[i],
-                    self.context.modified,
+                    modified,
                     self.context.categories,
                 )
-        return len(self.context.modified) > before
+        # the nested composites reached on the way still get a turn of their own:
+        # a (sparse) master that lacks this glyph has not visited them yet
+        self.context.nested |= modified
+        return glyphName in modified
 
 
 def _propagate_glyph_anchors(glyphSet, composite, processed, modified, categories):
